@@ -1,7 +1,7 @@
 """C10 — the generated client reconstructs every response the server can send."""
 from . import respfam
 
-THEOREMS = []
+THEOREMS = ["Goag.Resp.documented_arm_exact", "Goag.Resp.documented_reaches_arm", "Goag.Resp.undocumented_to_default", "Goag.Resp.undocumented_is_error"]
 
 
 def check(ctx):
